@@ -27,13 +27,13 @@ func init() {
 			if tier == "thorough" {
 				return 6000
 			}
-			return 240
+			return 600
 		},
 		MinNT: func(tier string) int {
 			if tier == "thorough" {
 				return 2000
 			}
-			return 80
+			return 200
 		},
 		Run: runC17,
 		Assumptions: []string{
